@@ -244,6 +244,26 @@ def body_target(case):
     # radio ignores the dark-sky mask: same as optical with the cut off
     if case["cuts_on"] and not ambiguous and dark is not None and (~dark).any():
         require(results["Radio"][0] >= results["Optical"][0] - 1e-300, "the radio integral is below the optical one although only optical applies the dark-sky cut")
+    # a second geometry object for the SAME site, window and instants but other dark-sky limits (same process): its
+    # optical integral follows its own limits
+    if case["cuts_on"]:
+        case2 = dict(case, sun_cut=case["sun_cut"] + 0.35, moon_cut=case["moon_cut"] + 0.3, phase_cut=max(0.0, case["phase_cut"] - 0.6))
+        conf2 = c13._config(case2)
+        conf2.detector.sun_moon.sun_moon_cuts = True
+        with quiet():
+            with cut("second RegionGeomToO (same site and instants, other dark-sky limits)"):
+                g2 = RegionGeomToO(conf2)
+                g2.throw(N)
+                r2 = g2.mcintegral(trig, cos_eff, pexit, thr, norm, wsum, lenDec=len_dec, method="Optical")
+        sc2, mc2, pc2 = case2["sun_cut"], case2["moon_cut"], case2["phase_cut"]
+        dark2 = (sun < sc2) & ((moon < mc2) | (ph > pc2))
+        amb2 = bool(np.any((np.abs(sun - sc2) < band) | (np.abs(moon - mc2) < band) | (np.abs(ph - pc2) < band)))
+        if not amb2:
+            e_int2, e_geo2, e_n2, _ = target_oracle(N, L, len_dec, cos_eff, trig, pexit, thr, norm, wsum, dark2)
+            scale2 = max(abs(e_geo2), 1e-300)
+            require(abs(float(r2[0]) - e_int2) <= 1e-12 * scale2 and int(r2[2]) == e_n2, f"a second geometry object with relaxed dark-sky limits (Sun {math.degrees(sc2):.2f} deg) reports optical integral {float(r2[0])!r} / {int(r2[2])} passing; its own limits give {e_int2!r} / {e_n2}")
+            if not np.array_equal(dark2, dark):
+                labels.add("second_object_other_limits")
     # monotone in the threshold
     with quiet():
         r_hi = g.mcintegral(trig, cos_eff, pexit, thr + abs(case["dthr"]), norm, wsum, lenDec=len_dec, method="Radio")
